@@ -1,6 +1,8 @@
 """C14 — Wallet builds exact, valid, non-overlapping spends or changes nothing."""
 from __future__ import annotations
 
+import ast
+
 from typing import Any, Iterable, List, Optional
 
 from ..engine.flow import Automaton, MayRaise, Runner, State, violation
@@ -191,6 +193,46 @@ def r14_4(ck: Check) -> None:
     require_return(ck, "R14.4", wg, Spec(wg, ("self", "pk")), "self.keypairs[pk]", "wallet[pk] is the private key stored for that public key")
 
 
+def r14_5(ck: Check) -> None:
+    """the record of used outputs belongs to one wallet object: created empty with it, written only by a successful spend"""
+    init = ck.summ(W + "Wallet.__init__", 0)
+    me = ("v", init.fi.params[0])
+    st = [e for e in init.events if e.kind == "store" and e.term == ("a", me, "spent_transaction_outputs")]
+    construct = "Wallet.__init__: spent_transaction_outputs is a fresh empty set per wallet object"
+    fresh = (("call", ("g", "builtin:set"), (), ()), ("set", ()))
+    if len(st) == 1 and (st[0].value in fresh or st[0].value[0] == "new") and not st[0].pc:
+        ck.ok("R14.5", construct, "", st[0].loc)
+    else:
+        ck.violated("R14.5", construct, "initialised from %s: a value shared between wallet objects (a default argument is evaluated once) makes one "
+                    "wallet's spends look used in every other" % [show(e.value)[:80] for e in st], init.fi.loc)
+    from ..engine.effects import typed_writes
+    tw = [w for w in typed_writes(ck.walker, ck.repo) if w.owner == W + "Wallet" and w.attr == "spent_transaction_outputs"]
+    bad = [w for w in tw if w.func not in (W + "Wallet.__init__", W + "create_spend_transaction")]
+    construct = "spent_transaction_outputs is written only by Wallet.__init__ and create_spend_transaction"
+    if bad:
+        ck.violated("R14.5", construct, "also written by %s" % sorted({short(w.func) for w in bad}), bad[0].ev.loc)
+    else:
+        ck.ok("R14.5", construct, "%d write site(s)" % len(tw), "")
+    # no function of the repository has a mutable default argument (shared between calls)
+    hits = []
+    for fi in ck.repo.all_functions():
+        a = fi.node.args   # type: ignore
+        for d in list(a.defaults) + [k for k in a.kw_defaults if k is not None]:
+            if isinstance(d, (ast.List, ast.Dict, ast.Set, ast.ListComp, ast.DictComp, ast.SetComp)) or (
+                    isinstance(d, ast.Call) and isinstance(d.func, ast.Name) and d.func.id in ("set", "list", "dict", "bytearray")):
+                hits.append("%s:%d" % (short(fi.qualname), d.lineno))
+    ctl = ast.parse("def f(a, b=set(), *, c=[]): pass").body[0]
+    nctl = sum(1 for d in list(ctl.args.defaults) + list(ctl.args.kw_defaults)   # type: ignore
+               if isinstance(d, (ast.List, ast.Dict, ast.Set)) or (isinstance(d, ast.Call) and isinstance(d.func, ast.Name) and d.func.id in ("set", "list", "dict")))
+    construct = "no function has a mutable default argument"
+    if nctl != 2:
+        ck.unknown("R14.5", construct, "positive control not matched")
+    elif hits:
+        ck.violated("R14.5", construct, "mutable defaults are created once and shared by all calls: %s" % hits[:5], "")
+    else:
+        ck.ok("R14.5", construct, "repository-wide scan", "")
+
+
 def check(ck: Check) -> None:
     ck.explanations.append(
         "C14: failure atomicity of the spend builder (typestate with exceptional edges at every may-raise call: no exceptional exit after an "
@@ -199,4 +241,5 @@ def check(ck: Check) -> None:
     ck.run("R14.1", "all-or-nothing", lambda: r14_1(ck))
     ck.run("R14.2/3", "owned and unused inputs; exact amounts", lambda: r14_2_3(ck))
     ck.run("R14.4", "signing", lambda: r14_4(ck))
+    ck.run("R14.5", "the used-output record is per wallet", lambda: r14_5(ck))
     ck.assume("the head's per-key balance lists exactly the unspent outputs paying that key (C03); ECDSA signing/verification are inverse")
